@@ -756,6 +756,9 @@ fn sendsync_probe() -> Result<(bool, String), String> {
     if text.contains("E0277") && (text.contains("cannot be sent between threads safely") || text.contains("cannot be shared between threads safely")) {
         return Ok((false, text));
     }
+    if ["does not live long enough", "is borrowed for `'static`", "must outlive `'static`", "E0597", "E0521", "E0716", "E0505"].iter().any(|m| text.contains(m)) {
+        return Ok((false, text));
+    }
     Err(format!("Send/Sync probe failed to build for another reason:\n{}", text.lines().filter(|l| l.starts_with("error")).take(5).collect::<Vec<_>>().join("\n")))
 }
 
